@@ -15,7 +15,7 @@ structure St where
   bc : Bcast := {}
   th : List TS := []
   cx : List Nat := []
-deriving DecidableEq, Repr
+deriving DecidableEq, Repr, Hashable
 
 /-- first / re-check critical section of `Lock` (mutex.go:31-43, 73-86) -/
 def attempt (s : St) (t : Nat) : St :=
@@ -103,7 +103,7 @@ def model : OLTS St Ev Obs where
   init := {}
   step := step
   obs := Ev.obs
-  cands := fun s => internalCands s.th.length
+  cands := fun s => internalCands s.th
   evsOf := fun _ o => [o.ev]
 
 end UtilModel.CSync.Mx
